@@ -38,8 +38,82 @@ pub struct AnalysisDiag {
     pub text: String,
 }
 
+/// Cyclic definitions among locals / inputs make the analyzer's nine resolution passes nest
+/// their symbols geometrically. Returns the largest number of references (with multiplicity)
+/// that a definition on a cycle makes to definitions of its own cycle.
+pub fn cyclic_reference_fanout(ast: &tx3_lang::ast::Program) -> usize {
+    fn idents(v: &serde_json::Value, out: &mut Vec<String>) {
+        match v {
+            serde_json::Value::Object(m) => {
+                for (k, val) in m {
+                    if k == "Identifier" || k == "callee" {
+                        if let Some(name) = val.get("value").and_then(|x| x.as_str()) {
+                            out.push(name.to_string());
+                            continue;
+                        }
+                    }
+                    idents(val, out);
+                }
+            }
+            serde_json::Value::Array(a) => a.iter().for_each(|x| idents(x, out)),
+            _ => {}
+        }
+    }
+    let mut worst = 0;
+    for tx in &ast.txs {
+        let mut defs: Vec<(String, Vec<String>)> = vec![];
+        if let Some(l) = &tx.locals {
+            for a in &l.assigns {
+                let mut ids = vec![];
+                idents(&serde_json::to_value(&a.value).unwrap_or_default(), &mut ids);
+                defs.push((a.name.value.clone(), ids));
+            }
+        }
+        for i in &tx.inputs {
+            let mut ids = vec![];
+            idents(&serde_json::to_value(&i.fields).unwrap_or_default(), &mut ids);
+            defs.push((i.name.clone(), ids));
+        }
+        let names: Vec<String> = defs.iter().map(|d| d.0.clone()).collect();
+        let n = defs.len();
+        // reachability (n is tiny)
+        let mut reach = vec![vec![false; n]; n];
+        for (i, (_, ids)) in defs.iter().enumerate() {
+            for id in ids {
+                if let Some(j) = names.iter().position(|x| x == id) {
+                    reach[i][j] = true;
+                }
+            }
+        }
+        for k in 0..n {
+            for i in 0..n {
+                for j in 0..n {
+                    if reach[i][k] && reach[k][j] {
+                        reach[i][j] = true;
+                    }
+                }
+            }
+        }
+        for i in 0..n {
+            if !reach[i][i] {
+                continue;
+            }
+            // references from i to members of its own cycle
+            let fan = defs[i]
+                .1
+                .iter()
+                .filter(|id| names.iter().position(|x| x == *id).map(|j| reach[j][i] && reach[i][j]).unwrap_or(false))
+                .count();
+            worst = worst.max(fan);
+        }
+    }
+    worst
+}
+
 #[derive(Debug, Clone)]
 pub enum Front {
+    /// parsed; analysis skipped because cyclic definitions would make it run for minutes
+    CyclicBlowup(usize),
     ParsePanic(PanicInfo),
     CallLimit,
     ParseErr { message: String, src: String, span: SpanInfo },
@@ -48,6 +122,12 @@ pub enum Front {
 }
 
 pub fn eval(src: &str) -> (Front, Option<tx3_lang::ast::Program>) {
+    eval_opts(src, false)
+}
+
+/// `skip_cyclic`: do not run the analyzer on programs whose cyclic definitions reference their
+/// own cycle four or more times (a recorded finding; running it takes minutes to hours)
+pub fn eval_opts(src: &str, skip_cyclic: bool) -> (Front, Option<tx3_lang::ast::Program>) {
     install_call_limit();
     let parsed = guard(|| tx3_lang::parsing::parse_string(src));
     let mut ast = match parsed {
@@ -60,6 +140,12 @@ pub fn eval(src: &str) -> (Front, Option<tx3_lang::ast::Program>) {
         }
         Ok(Ok(ast)) => ast,
     };
+    if skip_cyclic {
+        let fan = cyclic_reference_fanout(&ast);
+        if fan >= 4 {
+            return (Front::CyclicBlowup(fan), None);
+        }
+    }
     let report = guard(|| tx3_lang::analyzing::analyze(&mut ast));
     match report {
         Err(p) => (Front::AnalyzePanic(p), None),
